@@ -113,6 +113,7 @@ struct wcfg {
         struct gencfg gen;
         unsigned mon;          /* enabled property monitors */
         int line_max;
+        int merge_doomed;      /* forget the bytes of lines that are certainly answered ERROR (state merging) */
         int wo_fill;           /* fill byte for write-only storage at init (C08 pairing) */
         int var_init;          /* initial value pattern selector for variables */
 };
@@ -161,6 +162,8 @@ struct wstats {
         uint64_t flag_flips;
         uint64_t canary_checks;
         uint64_t outcome_classes[128];
+        int nsamples; char samples[6][400];
+        int nsample_lines; uint8_t sample_line[6][200]; int sample_len[6];
 };
 extern struct wstats WS;
 
@@ -190,6 +193,9 @@ extern volatile int w_san_error;
 /* helpers for drivers */
 const char *w_output(void);  int w_output_len(void);  void w_output_reset(void);
 void world_config_header(char *out, size_t n);
+void world_resolve_samples(void);
+void w_sample(const char *fmt, ...) __attribute__((format(printf, 1, 2)));
+void w_esc(char *out, size_t n, const uint8_t *b, int len);
 uint64_t w_lib_hash(void);
 
 #endif
